@@ -6,9 +6,26 @@ import numpy as np
 from harness.proxies import Tape, TapeMismatch
 
 
-def make(kind, cap, targets, p=None):
+SIZE_TYPES = [int, int, int, np.int64, np.int32, np.int16, np.int8, np.uint8]
+
+
+def make(kind, cap, targets, p=None, conv=int, positional=False):
+    """conv: the numeric type the size is given in (Python int, NumPy integer scalars);
+    positional: arguments passed by position, in the documented order"""
     from ixai.storage import (BatchStorage, IntervalStorage, SequenceStorage, UniformReservoirStorage,
                               GeometricReservoirStorage)
+    cap = conv(cap)
+    if positional:
+        if kind == "batch":
+            return BatchStorage(targets)
+        if kind == "interval":
+            return IntervalStorage(cap, targets)
+        if kind == "sequence":
+            return SequenceStorage(targets)
+        if kind == "uniform":
+            return UniformReservoirStorage(cap, targets)
+        if kind == "geometric":
+            return GeometricReservoirStorage(cap, p, targets)
     if kind == "batch":
         return BatchStorage(store_targets=targets)
     if kind == "interval":
@@ -38,39 +55,53 @@ def project(st):
             sx.append(-1)
     for y in ys:
         try:
-            sy.append(100 + int(y[1:]) if isinstance(y, str) and y.startswith("y") else -1)
+            sy.append(-2 if y is None else 100 + int(y[1:]) if isinstance(y, str) and y.startswith("y") else -1)
         except Exception:
             sy.append(-1)
     return sx, sy
 
 
-def record_run(kind, cap, targets, p, n, seed, pass_y_keyword=False, extreme=False):
+def record_run(kind, cap, targets, p, n, seed, pass_y_keyword=False, extreme=False, no_target_share=True):
     """Seeded run of the real class; one event per update."""
     random.seed(seed)
     np.random.seed(seed % 2 ** 32)
     tape = Tape(mode="extreme", rng=random.Random(seed + 1)) if extreme else Tape(mode="log")
     tape.__enter__()
-    st = make(kind, cap, targets, p)
+    conv = SIZE_TYPES[seed % len(SIZE_TYPES)] if cap <= 100 else int
+    st = make(kind, cap, targets, p, conv=conv, positional=(seed // 8) % 3 == 0)
     # a second live object of the same class (other capacity), fed other items in lockstep: objects must not share state
     comp = make(kind, 1 if kind == "sequence" else cap + 2, not targets, p) if seed % 2 else None
     ev = []
+    none = []          # arrivals whose target is None: the update omitted y, or passed None, on a storage that keeps targets
     for t in range(1, n + 1):
         if comp is not None:
             comp.update({"id": -t, "v": -1.0}, "decoy%d" % t)
         bx, by = project(st)
         x, y = item(t)
         d0 = len(tape.log)
-        if pass_y_keyword:
-            st.update(x=x, y=y)
-        elif targets or t % 2:
-            st.update(x, y)
-        else:
-            st.update(x)           # y is optional when targets are not stored
+        try:
+            if targets and no_target_share and (seed + 7 * t) % 11 < 3:
+                none.append(t)
+                if t % 2:
+                    st.update(x)
+                else:
+                    st.update(x, None)
+            elif pass_y_keyword:
+                st.update(x=x, y=y)
+            elif targets or t % 2:
+                st.update(x, y)
+            else:
+                st.update(x)           # y is optional when targets are not stored
+        except TapeMismatch:
+            raise
+        except Exception:
+            pass        # update() raised: the content logged below is then not a successor of the one before (storage.kind_law)
         ax, ay = project(st)
         ev.append({"t": t, "before": {"sx": bx, "sy": by}, "after": {"sx": ax, "sy": ay}, "len": len(st),
                    "draws": [[d["kind"], d["range"] or 0, d["v"] if isinstance(d["v"], int) else 0] for d in tape.log[d0:]]})
     tape.__exit__(None, None, None)
-    return {"kind": kind, "cap": cap, "targets": targets, "p": -1 if p is None else p, "ev": ev, "seed": seed}
+    return {"kind": kind, "cap": cap, "targets": targets, "p": -1 if p is None else p, "ev": ev, "seed": seed, "none": none,
+            "size_type": conv.__name__}
 
 
 def replay_choices(kind, cap, targets, choices):
